@@ -71,7 +71,7 @@ Print Assumptions C07_disabled_inert_sync.
    while disabled _deal_validate evaluates no invariant, for every class, stack of invariants and instance state; after a permanent
    disable deal.inv returns the class it was given, however many invariants are stacked *)
 Theorem C07_disabled_invariants_inert : forall cls invs s,
-  InvModel.s_enabled s = false -> InvCode.validate Invariant.code cls invs s = None.
+  InvModel.s_enabled s = false -> InvCode.validate Invariant.code cls invs s = (s, None).
 Proof. exact Refine.validate_inert. Qed.
 Theorem C07_removed_inv_returns_class : forall (A : Type) (vs : list A) invs,
   InvCode.decorate_all (InvCode.c_invariant Invariant.code) true invs vs = Some invs.
